@@ -2,9 +2,14 @@
 use vstd::prelude::*;
 use vstd::std_specs::iter::IteratorSpec;
 use std::collections::BTreeMap;
+use std::cmp::Ordering;
+use std::iter::Peekable;
 verus! {
+//@ rewrite R22 "self\\.(left|right)\\.peek\\(\\)" => "Peekable::peek(&mut self.\\1)"
 //@ include prelude/base.rs
 //@ include spec/lex.rs
+//@ include prelude/std_ext.rs
+//@ include prelude/peekable.rs
 //@ include contracts/transactions.rs
 } // verus!
 fn main() {}
